@@ -388,6 +388,11 @@ TouchedFields(t) ==
      [] t = "uuid" -> {"s_uuid"}
      [] t = "isize" -> {"s_inode_size", "s_jnl_blocks", "s_overhead_clusters"} \cup FreeFields
      [] OTHER -> {}
+(* Any e2fsck run that may write assigns a UUID to a filesystem that has none (e2fsck/super.c check_super_block(),
+   PR_0_ADD_UUID "did not have a UUID; generating one"), unless metadata_csum is on.  So after `-U clear` the e2fsck run a
+   LATER request asks for generates a UUID: part of what that run does, not a change made by the request.               *)
+FsckAddsUuid(st) == st.uuid = "null" /\ "metadata_csum" \notin st.feats
+FsckUuids(st) == IF FsckAddsUuid(st) THEN {"random", "time"} ELSE {st.uuid}
 (* what the e2fsck run tune2fs asked for may touch on top *)
 FsckFields == {"s_state", "s_lastcheck", "s_lastcheck_hi", "s_mnt_count", "s_jnl_blocks", "s_reserved_gdt_blocks", "s_flags",
                "s_min_extra_isize", "s_want_extra_isize", "s_overhead_clusters", "s_feature_ro_compat"} \cup FreeFields
@@ -397,6 +402,7 @@ AllowedChange(op, st, asked) ==
       \cup (IF r.e # st.feats \/ op.k \in {"O", "Q", "J", "j"} THEN FeatFields ELSE {})
       \cup (IF r.askf THEN {"s_state"} ELSE {})
       \cup (IF asked THEN FsckFields ELSE {})
+      \cup (IF asked /\ r.ref = "" /\ FsckAddsUuid([r.st EXCEPT !.feats = r.e]) THEN {"s_uuid"} ELSE {})
 MustChange(op, st) == IF op.k = "U" /\ UuidToken(op.a) \in {"random", "time"} /\ ~Refused(op, st) THEN {"s_uuid"} ELSE {}
 (* features the requested e2fsck may put back while completing the conversion (data dependent) *)
 FsckMayRestore(op) == AsSet(op.off) \cap {"large_file"}
